@@ -35,12 +35,16 @@ REQUIRED = ["key_only", "multi_value_with_colons", "value_has_colon", "value_has
 
 
 def anchors():
-    from simfile.base import BaseSimfile, BaseCharts
-    from simfile.sm import SMChart, SMSimfile
+    from ..core import pick
 
-    return {"BaseSimfile.serialize": BaseSimfile.serialize, "BaseCharts.serialize": BaseCharts.serialize,
-            "SMChart.serialize": SMChart.serialize, "SMSimfile._parse": SMSimfile._parse,
-            "SMChart._from_msd": SMChart._from_msd, "SMChart.__setitem__": SMChart.__setitem__}
+    return pick(
+        "simfile.base:BaseSimfile.serialize",
+        "simfile.base:BaseCharts.serialize",
+        "simfile.sm:SMChart.serialize",
+        "simfile.sm:SMSimfile._parse",
+        "simfile.sm:SMChart._from_msd",
+        "simfile.sm:SMChart.__setitem__",
+    )
 
 
 ENUM_ALPHABET = ["#", ":", ";", "\\", "/", "\n", "\r", "a"]
